@@ -37,7 +37,7 @@ long canary_check(const uint8_t *p, size_t n, uint64_t seed, size_t phase)
 
 Mem::Mem()
 {
-        cap_ = (size_t) 8 << 30; // 8 GiB of address space, committed lazily
+        cap_ = (size_t) 64 << 30; // 64 GiB of address space (15 interior 4 GiB lines), committed lazily
         base_ = (uint8_t *) mmap((void *) 0x200000000000ULL, cap_, PROT_NONE,
                                  MAP_PRIVATE | MAP_ANONYMOUS | MAP_NORESERVE | MAP_FIXED_NOREPLACE, -1, 0);
         if (base_ == MAP_FAILED) {
@@ -59,6 +59,41 @@ void Mem::reset()
         }
         bump_ = PG;
         bufs_.clear();
+        straddle_rate_ = 0;
+        straddled_ = 0;
+}
+
+void Mem::set_addr_policy(uint64_t seed)
+{
+        arng_.seed(seed);
+        // half of the runs never straddle; the others do so rarely or often
+        unsigned m = (unsigned) arng_.below(4);
+        straddle_rate_ = m < 2 ? 0 : m == 2 ? 4 : 21; // per 64 allocations
+}
+
+// Place the buffer across a 4 GiB-aligned address: pointer arithmetic done in 32 bits, or with a lost carry, is only
+// visible there. Returns false when no line is left (the caller falls back to the ordinary placement).
+bool Mem::alloc_straddling(MemBuf &b, size_t n, size_t align)
+{
+        const uintptr_t G4 = (uintptr_t) 1 << 32;
+        size_t x = align * (1 + (size_t) arng_.below((n - 1) / align)); // bytes below the line, 0 < x < n
+        uintptr_t cur = (uintptr_t) base_ + bump_;
+        uintptr_t line = (cur + x + PG + G4 - 1) & ~(G4 - 1);
+        uintptr_t p = line - x;
+        uintptr_t lo = p & ~(uintptr_t) (PG - 1);
+        uintptr_t hi = (p + n + PG - 1) & ~(uintptr_t) (PG - 1);
+        if (lo < cur || hi + PG > (uintptr_t) base_ + cap_)
+                return false;
+        if (mprotect((void *) lo, hi - lo, PROT_READ | PROT_WRITE)) {
+                perror("mprotect");
+                abort();
+        }
+        b.lo = (uint8_t *) lo;
+        b.hi = (uint8_t *) hi;
+        b.p = (uint8_t *) p;
+        bump_ = (size_t) (hi - (uintptr_t) base_) + PG;
+        straddled_++;
+        return true;
 }
 
 void Mem::release(const Mark &m)
@@ -84,6 +119,23 @@ uint8_t *Mem::alloc(size_t n, size_t align, Place pl, Rng *fill, const char *nam
                 fprintf(stderr, "Mem: arena exhausted\n");
                 abort();
         }
+        MemBuf b;
+        bool straddles = false;
+        if (straddle_rate_ && n >= 2 && n > align && arng_.below(64) < straddle_rate_)
+                straddles = alloc_straddling(b, n, align);
+        if (straddles) {
+                b.n = n;
+                b.role = role;
+                b.name = name;
+                b.canary = fill ? fill->next() : 0x5ca1ab1e0badf00dULL;
+                size_t pre = (size_t) (b.p - b.lo), post = (size_t) (b.hi - (b.p + n));
+                canary_fill(b.lo, pre, b.canary, 0);
+                canary_fill(b.p + n, post, b.canary, pre);
+                if (fill)
+                        fill->fill(b.p, n);
+                bufs_.push_back(b);
+                return b.p;
+        }
         uint8_t *lo = base_ + bump_;
         uint8_t *hi = lo + pages * PG;
         bump_ += (pages + 1) * PG; // trailing guard page (shared as next slot's leading guard)
@@ -91,7 +143,6 @@ uint8_t *Mem::alloc(size_t n, size_t align, Place pl, Rng *fill, const char *nam
                 perror("mprotect");
                 abort();
         }
-        MemBuf b;
         b.lo = lo;
         b.hi = hi;
         b.n = n;
